@@ -21,7 +21,6 @@ import (
 )
 
 const (
-	f4Key  = "zstd-write-first-offset-unchecked"
 	f11Key = "zstd-write-fault-masked-after-last-content-byte"
 )
 
@@ -372,7 +371,7 @@ var recWrite = vstats.New("TestC14Write")
 
 // runWrite feeds the upload to a fresh real ByteStream server over a
 // model back end and checks the outcome against the reference model.
-func runWrite(t *rapid.T, c *wcase, kf digest.KeyFormat, poolIdx int, vc *vstats.Case, f4known, f11known bool, rec *vstats.Recorder) {
+func runWrite(t *rapid.T, c *wcase, kf digest.KeyFormat, poolIdx int, vc *vstats.Case, f11known bool, rec *vstats.Recorder) {
 	mem := backends.NewMem("cas", kf)
 	mem.MaxSize = 1 << 20
 	// Unrelated objects that must stay untouched.
@@ -434,21 +433,6 @@ func runWrite(t *rapid.T, c *wcase, kf digest.KeyFormat, poolIdx int, vc *vstats
 		vc.Class("accepted")
 	case vInvalid:
 		if err == nil {
-			// Exactly the shape of finding F4: a compressed upload that the
-			// model accepts once the first write_offset is set to 0.
-			onlyFirstOffset := false
-			if c.zc && len(c.msgs) > 0 && c.msgs[0].off != 0 {
-				cp := *c
-				cp.msgs = append([]wmsg(nil), c.msgs...)
-				cp.msgs[0].off = 0
-				v, _, _ := classify(&cp)
-				onlyFirstOffset = v != vInvalid
-			}
-			if onlyFirstOffset && f4known {
-				rec.Excluded(f4Key)
-				vc.Class("excluded_f4")
-				return
-			}
 			// Exactly the shape of finding F11: the bytes sent before the
 			// fault already contain the complete contents; the fault
 			// (wrong offset, missing finish_write, transport error) hits
@@ -486,10 +470,6 @@ func runWrite(t *rapid.T, c *wcase, kf digest.KeyFormat, poolIdx int, vc *vstats
 
 // TestC14Write: ByteStream.Write over fake streams.
 func TestC14Write(t *testing.T) {
-	f4known := vstats.KnownListed("C14", f4Key)
-	if f4known {
-		probeF4(t)
-	}
 	f11known := vstats.KnownListed("C14", f11Key)
 	if f11known {
 		probeF11()
@@ -531,7 +511,7 @@ func TestC14Write(t *testing.T) {
 			vc.Class("mut_" + strings.SplitN(m, ":", 2)[0])
 		}
 		vc.Sample(func() string { return c.String() })
-		runWrite(t, c, kf, poolIdx, vc, f4known, f11known, recWrite)
+		runWrite(t, c, kf, poolIdx, vc, f11known, recWrite)
 		vc.End()
 	})
 }
@@ -569,23 +549,3 @@ func probeF11() {
 		fmt.Printf("KNOWN-FINDING: property=C14 key=%s %s\n", f11Key, what)
 	}
 }
-
-// probeF4 is the dedicated probe for the listed finding: a compressed
-// upload whose only fault is a non-zero first write_offset.
-func probeF4(t *testing.T) {
-	want := []byte("hello hello hello hello")
-	x := zEncode(0, want)
-	d := mkDigest("", fnSHA256, want)
-	mem := backends.NewMem("cas", digest.KeyWithoutInstance)
-	srv := grpcservers.NewByteStreamServer(mem, 1<<16, pools()[0])
-	stream := &fakeWriteStream{ctx: context.Background(), end: io.EOF, msgs: []wmsg{{
-		name: writeName("", fixedUUID, true, fnSHA256, d.GetHashString(), strconv.Itoa(len(want))),
-		off:  7, data: x, finish: true,
-	}}}
-	if err := srv.Write(stream); err == nil && mem.Has(d) {
-		what := fmt.Sprintf("compressed upload with first write_offset=7 stored and acknowledged (committed_size=%d)", stream.responses[0].CommittedSize)
-		recWrite.KnownFinding(f4Key, what)
-		fmt.Printf("KNOWN-FINDING: property=C14 key=%s %s\n", f4Key, what)
-	}
-}
-
